@@ -1046,10 +1046,10 @@ section Generic
 variable (p : Params)
 
 /-- A judge never answers `SkipRecord` for an empty range (a delimiter seen while
-looking for the start of a record).  `chunk_judge` satisfies it; a judge that
+looking for the start of a record; nothing has been decoded then).  `chunk_judge` satisfies it; a judge that
 does not makes `next_record_bytes` fail its first assertion (see the example in
 `Props/C06.lean`). -/
-def JudgeOK (judge : Judge) : Prop := ∀ h c, c.start = c.stop → judge h c ≠ .skipRecord
+def JudgeOK (judge : Judge) : Prop := ∀ h c, c.start = c.stop → c.size = 0 → judge h c ≠ .skipRecord
 
 /-- `RInv` without the parts that depend on the judge. -/
 structure GInv (off : Nat) (rc : Rec) (cur : List UInt8) : Prop where
@@ -1188,7 +1188,7 @@ theorem g_onChunk (hs : SplitIndep p) (judge : Judge) (hj : JudgeOK judge) (s1 :
       · rw [h]; exact ⟨rfl, rfl, rfl, Or.inl rfl⟩
       · rw [h]
         exact ⟨rfl, rfl, rfl, ⟨[], hinv', [], by simp [segsOf]⟩, Or.inl hb⟩
-      · exact absurd h (hj _ _ rfl)
+      · exact absurd h (hj _ _ rfl (size_of_no_emits _ i3))
   | eof =>
     simp only [ChunkOK] at hok
     subst hok
@@ -1415,7 +1415,7 @@ theorem g_nextSeq_spec (clamp : Nat) (hclamp : 2 ≤ clamp) (t : Tuning) (block 
       · rw [hn]; simp [leading]
       · rw [hr, he]
         simp only [leading]
-        exact List.Sublist.trans (List.Sublist.cons₂ _ hi.1) (List.sublist_append_right _ _)
+        exact List.Sublist.trans (List.Sublist.cons_cons _ hi.1) (List.sublist_append_right _ _)
     · intro res hres
       rcases List.mem_cons.mp hres with h | h
       · rcases hd with hn | ⟨_, d, a, b, _, hr⟩
@@ -1424,5 +1424,331 @@ theorem g_nextSeq_spec (clamp : Nat) (hclamp : 2 ≤ clamp) (t : Tuning) (block 
       · exact hi.2 res h
 
 end Generic
+
+/-! ### `last_sentinel_offset` -/
+
+section LastSentinel
+variable (p : Params)
+
+/-- `pos` is the start of the stream or the position right after a delimiter,
+and `ls` is where that delimiter starts (0 if there is none yet). -/
+def AtBoundary (pos ls : Nat) : Prop := (pos = 0 ∧ ls = 0) ∨ (2 ≤ pos ∧ ls + 2 = pos)
+
+structure LInv (off : Nat) (rest : List UInt8) (ls : Nat) (rc : Rec) : Prop where
+  idle : rc.st = .skipSentinel → rc.start = rc.stop ∧ (rest = [] ∨ AtBoundary off ls)
+  busy : rc.st ≠ .skipSentinel → AtBoundary rc.start ls ∧ rc.stop = off
+
+/-- What a finished call guarantees about `last_sentinel_offset`. -/
+def LDone (res : NextRes) (ls' off' : Nat) (after : List UInt8) : Prop :=
+  (match res with
+   | .some _ a b => (ls' = b ∧ off' = b + 2) ∨ (after = [] ∧ AtBoundary a ls')
+   | _ => True) ∧
+  ((res = .none ∨ ∃ d a b, res = .some d a b) → after = [] ∨ AtBoundary off' ls')
+
+def LStep (off' : Nat) (after : List UInt8) : StepOut → Prop
+  | .done res s' _ => LDone res s'.lastSentinel off' after
+  | .continue s' _ rc' => LInv off' after s'.lastSentinel rc'
+
+theorem l_consult (judge : Judge) (hns : ∀ h c, judge h c ≠ .stop) (s : RdState) (r : Reader) (rc : Rec)
+    (off' : Nat) (after : List UInt8)
+    (h1 : LInv off' after s.lastSentinel rc)
+    (h2 : LInv off' after s.lastSentinel { rc with st := .skipRecord }) :
+    LStep off' after (consult judge s r rc) := by
+  rcases consult_cases judge s r rc with h | h | ⟨h, _⟩
+  · exfalso
+    unfold consult at h
+    simp only at h
+    cases hj : judge s.hist ⟨rc.start, rc.stop, rc.size⟩ with
+    | stop => exact hns _ _ hj
+    | keepGoing => rw [hj] at h; simp at h
+    | skipRecord => rw [hj] at h; simp at h
+  · rw [h]; exact h1
+  · rw [h]; exact h2
+
+theorem l_afterBreak (s2 : RdState) (r : Reader) (rc : Rec) (off off' : Nat) (after : List UInt8)
+    (hstop : rc.stop = off)
+    (hcase : (s2.lastSentinel = off ∧ off' = off + 2) ∨
+      (after = [] ∧ off' = off ∧ AtBoundary rc.start s2.lastSentinel)) :
+    LStep off' after (afterBreak s2 r rc) := by
+  have hpost : after = [] ∨ AtBoundary off' s2.lastSentinel := by
+    rcases hcase with ⟨h1, h2⟩ | ⟨h1, _⟩
+    · right; right; omega
+    · left; exact h1
+  have hfresh : LInv off' after s2.lastSentinel Rec.fresh :=
+    { idle := fun _ => ⟨rfl, hpost⟩, busy := fun h => absurd rfl h }
+  unfold afterBreak
+  split
+  · exact ⟨trivial, fun h => by rcases h with h | ⟨_, _, _, h⟩ <;> simp at h⟩
+  · split
+    · exact hfresh
+    · split
+      · exact hfresh
+      · refine ⟨?_, fun _ => hpost⟩
+        rcases hcase with ⟨h1, h2⟩ | ⟨h1, _, h3⟩
+        · left; rw [hstop]; exact ⟨h1, h2⟩
+        · right; exact ⟨h1, h3⟩
+
+theorem l_onChunk (judge : Judge) (hns : ∀ h c, judge h c ≠ .stop) (s1 : RdState) (r : Reader) (rc : Rec)
+    (after : List UInt8) (off : Nat) (ch : Chunk) (hinv : LInv off (ch.bytes ++ after) s1.lastSentinel rc)
+    (hok : ChunkOK ch (off + ch.bytes.length) after) :
+    LStep (off + ch.bytes.length) after (onChunk p judge s1 r rc ch) := by
+  cases ch with
+  | sentinel o =>
+    simp only [ChunkOK, Chunk.bytes] at hok
+    subst hok
+    unfold onChunk
+    have hlt : ¬ off + [FE, FD].length < 2 := by simp
+    simp only [hlt, if_false, Chunk.bytes]
+    have hls : off + [FE, FD].length - 2 = off := by simp
+    have hb : AtBoundary (off + [FE, FD].length) (off + [FE, FD].length - 2) := by
+      right; simp
+    cases hst : rc.st with
+    | skipSentinel =>
+      simp only
+      apply l_consult judge hns
+      · exact { idle := fun _ => ⟨rfl, Or.inr hb⟩, busy := fun h => absurd rfl h }
+      · exact { idle := fun h => by simp at h, busy := fun _ => ⟨hb, rfl⟩ }
+    | decodeRecord =>
+      simp only
+      have hbz := hinv.busy (by simp [hst])
+      exact l_afterBreak { s1 with lastSentinel := off + [FE, FD].length - 2 } r rc off _ after hbz.2
+        (Or.inl ⟨by simp, by simp⟩)
+    | skipRecord =>
+      simp only
+      have hbz := hinv.busy (by simp [hst])
+      exact l_afterBreak { s1 with lastSentinel := off + [FE, FD].length - 2 } r rc off _ after hbz.2
+        (Or.inl ⟨by simp, by simp⟩)
+  | eof =>
+    simp only [ChunkOK] at hok
+    subst hok
+    unfold onChunk
+    simp only [Chunk.bytes, List.length_nil, Nat.add_zero]
+    split
+    · exact ⟨trivial, fun _ => Or.inl rfl⟩
+    · rename_i hne
+      by_cases hst : rc.st = .skipSentinel
+      · exact absurd (hinv.idle hst).1 hne
+      · exact l_afterBreak s1 r rc off off [] (hinv.busy hst).2 (Or.inr ⟨rfl, rfl, (hinv.busy hst).1⟩)
+  | data o bs =>
+    simp only [ChunkOK, Chunk.bytes] at hok
+    obtain ⟨ho, hbs, _⟩ := hok
+    subst ho
+    unfold onChunk
+    have hemp : bs.isEmpty = false := by cases bs with
+      | nil => exact absurd rfl hbs
+      | cons _ _ => rfl
+    simp only [hemp, Bool.false_eq_true, if_false, Chunk.bytes]
+    · have hsub : off + bs.length - bs.length = off := by omega
+      have key : ∀ rc3 : Rec, rc3.st ≠ .skipSentinel → AtBoundary rc3.start s1.lastSentinel →
+          rc3.stop = off + bs.length → LStep (off + bs.length) after (consult judge s1 r rc3) := by
+        intro rc3 h1 h2 h3
+        apply l_consult judge hns
+        · exact { idle := fun h => absurd h h1, busy := fun _ => ⟨h2, h3⟩ }
+        · exact { idle := fun h => by simp at h, busy := fun _ => ⟨h2, h3⟩ }
+      have dstart : ∀ base : Rec, (decodeChunk p base bs).start = base.start ∧
+          ((decodeChunk p base bs).st = base.st ∨ (decodeChunk p base bs).st = .skipRecord) := by
+        intro base; simp only [decodeChunk]; split <;> simp
+      cases hst : rc.st with
+      | skipSentinel =>
+        obtain ⟨_, hb⟩ := hinv.idle hst
+        have hbd : AtBoundary off s1.lastSentinel := by
+          rcases hb with h | h
+          · exfalso; simp [Chunk.bytes] at h; exact hbs h.1
+          · exact h
+        simp only [if_true, hsub]
+        obtain ⟨d1, d2⟩ := dstart { rc with start := off, stop := off, st := .decodeRecord }
+        apply key
+        · simp only; rcases d2 with h | h <;> simp [h]
+        · simp only [d1]; exact hbd
+        · rfl
+      | decodeRecord =>
+        obtain ⟨hb1, hb2⟩ := hinv.busy (by simp [hst])
+        simp only [hst, if_true]
+        obtain ⟨d1, d2⟩ := dstart rc
+        apply key
+        · simp only; rcases d2 with h | h <;> simp [h, hst]
+        · simp only [d1]; exact hb1
+        · rfl
+      | skipRecord =>
+        obtain ⟨hb1, hb2⟩ := hinv.busy (by simp [hst])
+        simp only [hst, reduceCtorEq, if_false]
+        apply key
+        · simp [hst]
+        · exact hb1
+        · rfl
+
+/-- `onChunk` leaves the chunker and the reader alone. -/
+def Frame (s1 : RdState) (r : Reader) : StepOut → Prop
+  | .done _ s' r' => r' = r ∧ s'.chunker = s1.chunker
+  | .continue s' r' _ => r' = r ∧ s'.chunker = s1.chunker
+
+theorem consult_frame (judge : Judge) (s s1 : RdState) (hc : s.chunker = s1.chunker) (r : Reader) (rc : Rec) :
+    Frame s1 r (consult judge s r rc) := by
+  rcases consult_cases judge s r rc with h | h | ⟨h, _⟩ <;> rw [h] <;> exact ⟨rfl, hc⟩
+
+theorem afterBreak_frame (s s1 : RdState) (hc : s.chunker = s1.chunker) (r : Reader) (rc : Rec) :
+    Frame s1 r (afterBreak s r rc) := by
+  unfold afterBreak
+  split
+  · exact ⟨rfl, hc⟩
+  · split
+    · exact ⟨rfl, hc⟩
+    · split <;> exact ⟨rfl, hc⟩
+
+theorem frame_ite (s1 : RdState) (r : Reader) (c : Prop) [Decidable c] (a b : StepOut)
+    (ha : Frame s1 r a) (hb : Frame s1 r b) : Frame s1 r (if c then a else b) := by
+  split <;> assumption
+
+theorem onChunk_frame (judge : Judge) (s1 : RdState) (r : Reader) (rc : Rec) (ch : Chunk) :
+    Frame s1 r (onChunk p judge s1 r rc ch) := by
+  cases ch with
+  | sentinel o =>
+    simp only [onChunk]
+    apply frame_ite
+    · exact ⟨rfl, rfl⟩
+    · cases rc.st with
+      | skipSentinel => exact consult_frame judge { s1 with lastSentinel := o - 2 } s1 rfl r _
+      | decodeRecord => exact afterBreak_frame { s1 with lastSentinel := o - 2 } s1 rfl r rc
+      | skipRecord => exact afterBreak_frame { s1 with lastSentinel := o - 2 } s1 rfl r rc
+  | eof =>
+    simp only [onChunk]
+    apply frame_ite
+    · exact ⟨rfl, rfl⟩
+    · exact afterBreak_frame _ s1 rfl r rc
+  | data o bs =>
+    simp only [onChunk]
+    apply frame_ite
+    · exact ⟨rfl, rfl⟩
+    · exact consult_frame judge _ s1 rfl r _
+
+theorem l_run_spec (clamp : Nat) (hclamp : 2 ≤ clamp) (t : Tuning) (block : Nat) (judge : Judge)
+    (hns : ∀ h c, judge h c ≠ .stop) :
+    ∀ (fuel : Nat) (s : RdState) (r : Reader) (rc : Rec), WellBehaved r →
+    LInv s.chunker.offset (s.chunker.buf ++ r.src) s.lastSentinel rc →
+    WellBehaved (run clamp t p judge block fuel s r rc).2.2 ∧
+    LDone (run clamp t p judge block fuel s r rc).1
+      (run clamp t p judge block fuel s r rc).2.1.lastSentinel
+      (run clamp t p judge block fuel s r rc).2.1.chunker.offset
+      ((run clamp t p judge block fuel s r rc).2.1.chunker.buf ++
+        (run clamp t p judge block fuel s r rc).2.2.src) := by
+  have hpanic : ∀ (ls off : Nat) (after : List UInt8), LDone .panic ls off after :=
+    fun _ _ _ => ⟨trivial, fun h => by rcases h with h | ⟨_, _, _, h⟩ <;> simp at h⟩
+  intro fuel
+  induction fuel with
+  | zero => intro s r rc hwb _; exact ⟨hwb, hpanic _ _ _⟩
+  | succ fuel ih =>
+    intro s r rc hwb hinv
+    unfold run
+    by_cases hassert : decide (rc.start = rc.stop) ≠ decide (rc.st = .skipSentinel)
+    · have : step clamp t p judge block s r rc = .done .panic s r := by
+        unfold step; rw [if_pos hassert]
+      rw [this]
+      exact ⟨hwb, hpanic _ _ _⟩
+    · have hp := pump_spec clamp hclamp t block s.chunker s.mem r hwb
+      obtain ⟨ch, hres, hsplit, hoff, hok⟩ := hp.ex
+      rw [hoff] at hok
+      have hstep : step clamp t p judge block s r rc =
+          onChunk p judge
+            { s with chunker := (pump clamp t block s.chunker s.mem r).chunker,
+                     mem := (pump clamp t block s.chunker s.mem r).mem }
+            (pump clamp t block s.chunker s.mem r).reader rc ch := by
+        unfold step
+        rw [if_neg hassert]
+        simp only [hres]
+      rw [hstep]
+      have hfr := onChunk_frame p judge
+        { s with chunker := (pump clamp t block s.chunker s.mem r).chunker,
+                 mem := (pump clamp t block s.chunker s.mem r).mem }
+        (pump clamp t block s.chunker s.mem r).reader rc ch
+      have hl := l_onChunk p judge hns
+        { s with chunker := (pump clamp t block s.chunker s.mem r).chunker,
+                 mem := (pump clamp t block s.chunker s.mem r).mem }
+        (pump clamp t block s.chunker s.mem r).reader rc
+        ((pump clamp t block s.chunker s.mem r).chunker.buf ++ (pump clamp t block s.chunker s.mem r).reader.src)
+        s.chunker.offset ch (by rw [← hsplit]; exact hinv) hok
+      generalize onChunk p judge
+        { s with chunker := (pump clamp t block s.chunker s.mem r).chunker,
+                 mem := (pump clamp t block s.chunker s.mem r).mem }
+        (pump clamp t block s.chunker s.mem r).reader rc ch = so at hfr hl ⊢
+      cases so with
+      | done res s' r' =>
+        obtain ⟨h1, h2⟩ := hfr
+        simp only
+        subst h1
+        rw [h2]
+        simp only
+        rw [hoff]
+        exact ⟨hp.wb, hl⟩
+      | «continue» s' r' rc' =>
+        obtain ⟨h1, h2⟩ := hfr
+        simp only
+        subst h1
+        apply ih s' _ rc' hp.wb
+        rw [h2]
+        simp only
+        rw [hoff]
+        exact hl
+
+/-- **`last_sentinel_offset`** (judges that never answer `Stop`, e.g. the
+always-KeepGoing judge or `chunk_judge(max, None)`): whenever the last of any
+number of calls returns a record with range `a..b`, then either the record was
+ended by a delimiter, the reader sits right after it (`offset = b + 2`) and
+`last_sentinel_offset = b` is where that delimiter starts; or the record was
+ended by the end of the stream, everything has been consumed, and
+`last_sentinel_offset` is where the delimiter just before the record starts
+(`a - 2`; 0 when the record starts the stream and no delimiter was seen). -/
+theorem l_nextSeq_spec (clamp : Nat) (hclamp : 2 ≤ clamp) (t : Tuning) (block : Option Nat)
+    (hs : SplitIndep p) (judge : Judge) (hj : JudgeOK judge) (hns : ∀ h c, judge h c ≠ .stop) :
+    ∀ (n : Nat) (s : RdState) (r : Reader), WellBehaved r →
+    (s.chunker.buf ++ r.src = [] ∨ AtBoundary s.chunker.offset s.lastSentinel) →
+    ∀ d a b, (nextSeq clamp t p judge block (n + 1) s r).1.getLast? = some (.some d a b) →
+      ((nextSeq clamp t p judge block (n + 1) s r).2.1.lastSentinel = b ∧
+        (nextSeq clamp t p judge block (n + 1) s r).2.1.chunker.offset = b + 2) ∨
+      ((nextSeq clamp t p judge block (n + 1) s r).2.1.chunker.buf ++
+          (nextSeq clamp t p judge block (n + 1) s r).2.2.src = [] ∧
+        AtBoundary a (nextSeq clamp t p judge block (n + 1) s r).2.1.lastSentinel) := by
+  intro n
+  induction n with
+  | zero =>
+    intro s r hwb hb d a b hlast
+    obtain ⟨_, hd⟩ := l_run_spec p clamp hclamp t (block.getD Woodpile.Gen.defaultBlockSize) judge hns
+      (runFuel s r) s r Rec.fresh hwb { idle := fun _ => ⟨rfl, hb⟩, busy := fun h => absurd rfl h }
+    simp only [nextSeq, List.getLast?_singleton, Option.some.injEq] at hlast ⊢
+    have hnext : next clamp t p judge block s r =
+        run clamp t p judge (block.getD Woodpile.Gen.defaultBlockSize) (runFuel s r) s r Rec.fresh := rfl
+    rw [← hnext] at hd
+    have := hd.1
+    rw [hlast] at this
+    exact this
+  | succ n ih =>
+    intro s r hwb hb d a b hlast
+    obtain ⟨hw, hd⟩ := l_run_spec p clamp hclamp t (block.getD Woodpile.Gen.defaultBlockSize) judge hns
+      (runFuel s r) s r Rec.fresh hwb { idle := fun _ => ⟨rfl, hb⟩, busy := fun h => absurd rfl h }
+    have hnext : next clamp t p judge block s r =
+        run clamp t p judge (block.getD Woodpile.Gen.defaultBlockSize) (runFuel s r) s r Rec.fresh := rfl
+    rw [← hnext] at hd hw
+    have hstep : (nextSeq clamp t p judge block (n + 1 + 1) s r) =
+        ((next clamp t p judge block s r).1 ::
+          (nextSeq clamp t p judge block (n + 1) (next clamp t p judge block s r).2.1
+            (next clamp t p judge block s r).2.2).1,
+         (nextSeq clamp t p judge block (n + 1) (next clamp t p judge block s r).2.1
+            (next clamp t p judge block s r).2.2).2) := rfl
+    rw [hstep] at hlast ⊢
+    simp only at hlast ⊢
+    have hne : (nextSeq clamp t p judge block (n + 1) (next clamp t p judge block s r).2.1
+        (next clamp t p judge block s r).2.2).1 ≠ [] := by simp [nextSeq]
+    rw [List.getLast?_cons_of_ne_nil hne] at hlast
+    have hgood : (next clamp t p judge block s r).1 = .none ∨
+        ∃ d a b, (next clamp t p judge block s r).1 = .some d a b := by
+      obtain ⟨_, hg⟩ := g_run_spec p clamp hclamp t (block.getD Woodpile.Gen.defaultBlockSize) hs judge hj
+        (runFuel s r) s r Rec.fresh [] hwb (ginv_fresh p _)
+        (by simp only [runFuel, Rec.fresh, List.length_append, if_true]; omega)
+      rw [← hnext] at hg
+      rcases hg with h | ⟨_, d, a, b, _, h⟩
+      · exact Or.inl h
+      · exact Or.inr ⟨d, a, b, h⟩
+    exact ih _ _ hw (hd.2 hgood) d a b hlast
+
+end LastSentinel
 
 end Woodpile.Stream
